@@ -829,7 +829,7 @@ func c09CheckFuse(a vh.Args, o *vh.Oracle, r *vh.Result, c *c09Case) error {
 
 // ---------- CLI: desync cat -o -l ----------
 
-func c09CheckCLI(a vh.Args, r *vh.Result, c *c09Case) error {
+func c09CheckCLI(a vh.Args, o *vh.Oracle, r *vh.Result, c *c09Case) error {
 	bin := os.Getenv("VH_DESYNC")
 	if bin == "" {
 		return nil
@@ -865,10 +865,10 @@ func c09CheckCLI(a vh.Args, r *vh.Result, c *c09Case) error {
 	ofile := filepath.Join(dir, "out")
 	args := []string{"cat", "-s", sdir}
 	if c.CLIOff != 0 {
-		args = append(args, "-o", strconv.Itoa(c.CLIOff))
+		args = append(args, "--offset="+strconv.Itoa(c.CLIOff))
 	}
 	if c.CLILen != 0 {
-		args = append(args, "-l", strconv.Itoa(c.CLILen))
+		args = append(args, "--length="+strconv.Itoa(c.CLILen))
 	}
 	if c.Digest == "sha256" {
 		args = append(args, "--digest", "sha256")
@@ -885,24 +885,26 @@ func c09CheckCLI(a vh.Args, r *vh.Result, c *c09Case) error {
 	okExit := false
 	if off >= 0 && off <= L {
 		end := L
-		if ln > 0 && off+ln < L {
+		if ln > 0 && ln < L-off {
 			end = off + ln
 		}
 		want = blob[off:end]
-		okExit = ln <= 0 || off+ln <= L // io.CopyN reports EOF when fewer than -l bytes exist
+		okExit = ln <= 0 || ln <= L-off // io.CopyN reports EOF when fewer than -l bytes exist (a length <= 0 means "to the end")
 	}
 	// is a chunk that the requested range needs absent from the store? (null chunks are never fetched)
 	need := false
 	nullID := desync.Digest.Sum(make([]byte, c.Max))
-	var o int
+	var pos int
 	for i, s := range c.Sizes {
 		_, present := st.m[idx.Chunks[i].ID]
-		if !present && idx.Chunks[i].ID != nullID && len(want) > 0 && o < off+len(want) && o+s > off {
+		if !present && idx.Chunks[i].ID != nullID && len(want) > 0 && pos < off+len(want) && pos+s > off {
 			need = true
 		}
-		o += s
+		pos += s
 	}
 	switch {
+	case (off < 0 || off > L) && len(got) > 0:
+		r.Fail("predicate", "cli/data-for-offset-outside-blob", fmt.Sprintf("cat --offset=%d --length=%d wrote %d bytes (exit status %d) although the offset is outside the blob [0,%d]: the seek must be refused and nothing written", off, ln, len(got), rc, L), c)
 	case !bytes.HasPrefix(want, got):
 		r.Fail("predicate", "cli/altered-data", fmt.Sprintf("cat -o %d -l %d wrote bytes that are not a prefix of blob[%d:%d]", off, ln, off, off+len(want)), c)
 	case rc == 0 && !bytes.Equal(got, want):
@@ -913,6 +915,35 @@ func c09CheckCLI(a vh.Args, r *vh.Result, c *c09Case) error {
 		r.Fail("predicate", "cli/fails-on-valid-range", fmt.Sprintf("cat -o %d -l %d exited %d although the range is valid and the store complete", off, ln, rc), c)
 	case rc == 0 && need:
 		r.Fail("predicate", "cli/missing-chunk-exit-0", fmt.Sprintf("cat -o %d -l %d exited 0 although a needed chunk is missing", off, ln), c)
+	}
+	if off < 0 || off > L {
+		r.Dist("cli:offset-outside-blob")
+	}
+	// the same run on the model: Seek(offset, SeekStart), then (if it succeeded) one Read of the requested length or of
+	// everything.  A refused Seek means: exit status != 0 and nothing written; otherwise the output is what Read returns,
+	// exit 0 iff Read met no error and delivered -l bytes when -l was given.
+	if o != nil && c.Digest == "sha256" {
+		_, _, _, rows, tab := c09Build(c)
+		n := ln
+		if n <= 0 || n > L+1 {
+			n = L + 1
+		}
+		ans, err := o.Call("c09.run", strconv.Itoa(c.Max), rows, tab, "", fmt.Sprintf("S:%d:0,R:%d", off, n))
+		if err != nil {
+			return err
+		}
+		c.Model = ans
+		r.Corr()
+		res := strings.Split(strings.SplitN(ans, ";", 2)[0], ",")
+		wantOut, wantOK := "-", false
+		if len(res) == 2 && strings.HasSuffix(res[0], ":ok") {
+			f := strings.Split(res[1], ":") // R:<hex>:<class>
+			wantOut = f[1]
+			wantOK = (f[2] == "ok" || f[2] == "eof") && (ln <= 0 || len(vh.UnHex(f[1])) == ln)
+		}
+		if vh.Hex(got) != wantOut || (rc == 0) != wantOK {
+			r.Fail("corr", "corr:C09/cat", fmt.Sprintf("cat --offset=%d --length=%d: model says output %s, exit-0 %v; the command wrote %s and exited %d", off, ln, c09Tail(wantOut, 40), wantOK, c09Tail(vh.Hex(got), 40), rc), c)
+		}
 	}
 	return nil
 }
@@ -930,12 +961,12 @@ func runC09(a vh.Args, o *vh.Oracle, r *vh.Result) error {
 		case "fuse":
 			return c09CheckFuse(a, o, r, &c)
 		case "cli":
-			return c09CheckCLI(a, r, &c)
+			return c09CheckCLI(a, o, r, &c)
 		}
 		return c09CheckIpos(a, o, r, &c)
 	}
 	rng := vh.NewRand(a.Seed)
-	nIpos, nFuse, nCLI := 260, 90, 14
+	nIpos, nFuse, nCLI := 260, 90, 30
 	if a.Tier == "thorough" {
 		nIpos, nFuse, nCLI = 4000, 1200, 80
 	}
@@ -1063,17 +1094,25 @@ func runC09(a vh.Args, o *vh.Oracle, r *vh.Result) error {
 		bs := c09Boundaries(c.Sizes)
 		L := bs[len(bs)-1]
 		c.CLIOff = int(c09Target(rng, bs, L))
-		if c.CLIOff < 0 || rng.Chance(1, 4) {
+		switch rng.Intn(12) {
+		case 0, 1, 2:
 			c.CLIOff = 0
+		case 3: // before the start (e.g. computed by a script): must be refused, not served from position 0
+			c.CLIOff = -1 - rng.Intn(5000)
+		case 4: // far beyond the end
+			c.CLIOff = []int{int(L) + 1 + rng.Intn(1000), 1 << 40, 1<<63 - 1}[rng.Intn(3)]
 		}
 		c.CLILen = c09ReadLen(rng, c.Sizes, c.Max, L)
-		if rng.Chance(1, 3) {
+		switch rng.Intn(9) {
+		case 0, 1, 2:
 			c.CLILen = 0
+		case 3:
+			c.CLILen = []int{1 << 40, 1<<63 - 1, -1 - rng.Intn(100)}[rng.Intn(3)]
 		}
 		if rng.Chance(1, 3) && len(c.Sizes) > 0 {
 			c.Missing = []int{rng.Intn(len(c.Sizes))}
 		}
-		if err := c09CheckCLI(a, r, c); err != nil {
+		if err := c09CheckCLI(a, o, r, c); err != nil {
 			return err
 		}
 	}
